@@ -13,7 +13,9 @@ covered by the beam (`n ≤ max(ef, k)`): `search` returns
 * exactly `min k n` hits (C07 needs all of them, C01 only gives "at most k"),
 * in ascending score order, each a distinct stored item with its own distance (C01's clauses),
 * and every stored item that is *not* returned is at least as far from the query as every hit —
-  the hits are the `k` nearest (ties may be resolved either way, as for any exact ranking).
+  the hits are the `k` nearest (ties may be resolved either way, as for any exact ranking);
+* `scores_are_the_bruteforce_ranking`: the returned score sequence *equals* the brute-force
+  ranking `exactTopK k row` of the distance row.
 
 `mMax0 + 1` is the bound of the property: with the default configuration `mMax0 = 2·M`
 (`default_config`, regenerated from `index/config.go`), i.e. at most `2M+1` items. The proof is
@@ -74,8 +76,29 @@ theorem exact_small_collections (hm : 1 ≤ cfg.m) (hefc : 1 ≤ cfg.efC) (ops :
     trivial
   have hsound := search_ok_reachable (dist := dist) cfg hmin hmax ops hops q k
   rw [hio.idsLen] at hcover ⊢
-  obtain ⟨h1, h2⟩ := search_exact (dist := dist) cfg hmin hmax s q hio k hcover
+  obtain ⟨h1, h2, _⟩ := search_exact (dist := dist) cfg hmin hmax s q hio k hcover
   exact ⟨hsound, h1, h2⟩
+
+include hmin hmax in
+/-- **C07, exactness against brute force**: the scores returned are exactly the ascending sort of
+the distances from the query to every stored item, cut at `k` — `Exact.exactTopK`, the function the
+`exact` engine's driver evaluates on the distances the real metric returns. -/
+theorem scores_are_the_bruteforce_ranking (hm : 1 ≤ cfg.m) (hefc : 1 ≤ cfg.efC) (ops : List Op)
+    (hins : InsertOnly ops) (hsmall : ops.length ≤ cfg.mMax0 + 1) (q : VecRef) (k : Nat) :
+    let s := run (Pmin := Pmin) (Pmax := Pmax) (dist := dist) cfg Index.empty ops
+    s.ids.length ≤ max cfg.ef k →
+    (search Pmin Pmax dist cfg s q k).map (·.score) =
+      Exact.exactTopK k ((List.range s.next).map (fun v => dist q (s.vecOf v))) := by
+  intro s hcover
+  have hio : IO cfg s := io_run cfg hmin hmax hm hefc Index.empty (io_empty cfg) ops hins
+    (by simp [Index.empty]; omega)
+  have hops : ∀ op ∈ ops, op.ok := by
+    intro op hop
+    obtain ⟨_, _, _, _, rfl⟩ := hins op hop
+    trivial
+  have hgood := good_run (dist := dist) (Pmin := Pmin) (Pmax := Pmax) cfg Index.empty ops hops good_empty
+  rw [hio.idsLen] at hcover
+  exact search_scores_eq_bruteforce (dist := dist) cfg hmin hmax s q hio hgood.1 k hcover
 
 include hmin hmax in
 /-- every allocated vertex of such a state is a stored (live) item: the quantifier `v < s.next`
